@@ -500,7 +500,7 @@ def enum_variants(text):
     return res
 
 
-def run_all(rep, cases, corpus, root, K, proofs_ok, driver_ok):
+def run_all(rep, cases, corpus, root, K, proofs_ok, driver_ok, shrink_ok=False):
     findings = known_keys()
     # ---- model
     if driver_ok:
@@ -646,7 +646,7 @@ def run_all(rep, cases, corpus, root, K, proofs_ok, driver_ok):
             else:
                 # the files of the target grammar must equal those of the single-grammar run
                 for p, v in ga.items():
-                    if p in m0 and m0[p] != v and p != "a/g1_actions.rs":
+                    if p in m0 and m0[p] != v:
                         det = describe_file_diff({p: v}, {p: m0[p]}, f"{root}/r{c.id}a0", f"{root}/r{c.id}m0")
                         (known_hits if case_clash(c) else violations).append(
                             (c, "a grammar processed after others differs from the same grammar processed alone", det))
@@ -665,7 +665,9 @@ def run_all(rep, cases, corpus, root, K, proofs_ok, driver_ok):
                 alts[unhx(nt).decode()] = [[(x[0] == "~", unhx(x.lstrip("~")).decode()) for x in a.split(",") if x]
                                            for a in rhs.split("/")]
             for ename, variants in enums.items():
-                cand = [nt for nt in alts if nt == ename or (nt + "NoO").lower() == ename.lower()]
+                user = [nt for nt in alts if nt not in ("EMPTY", "AUG", "AUGL")]
+                cand = ([nt for nt in user if nt == ename] or [nt for nt in user if nt + "NoO" == ename]
+                        or [nt for nt in user if (nt + "NoO").lower() == ename.lower()])
                 if not cand:
                     continue
                 names_checked += 1
@@ -688,8 +690,15 @@ def run_all(rep, cases, corpus, root, K, proofs_ok, driver_ok):
                 rep.violation(dict(c.replay_payload(), what=what, differing=det,
                                    note="grammar is in class DupChoiceNameSuffixClash (Types.clash = true); "
                                         "finding " + KEY_CLASH + " is not listed in known_findings.json"))
-    for c, what, det in violations[:3]:
-        rep.violation(dict(c.replay_payload(), what=what, differing=det, model=c.model))
+    for n, (c, what, det) in enumerate(violations[:3]):
+        payload = dict(c.replay_payload(), what=what, differing=det, model=c.model)
+        if shrink_ok and n == 0 and c.family != "shrink":
+            try:
+                sc = shrink(c, corpus, root, what, driver_ok)
+                payload["shrunk"] = sc.replay_payload()
+            except Exception as e:  # shrinking is best effort
+                payload["shrunk"] = f"(shrinking failed: {e!r})"
+        rep.violation(payload)
     rep.count("impl≠oracle", len(violations))
     rep.count("impl≠model", len(corr_breaks))
     rep.oblige("correspondence CLI/parse/settings/stdout/names (rcomp & Settings API vs Lean model)", not corr_breaks,
@@ -758,6 +767,58 @@ def check_inventory(rep):
     return blocking
 
 
+class _Quiet(common.Report):
+    """report that writes nothing (used while shrinking)"""
+
+    def violation(self, payload, no_input=False):
+        pass
+
+    def known_finding(self, key, what):
+        pass
+
+
+def shrink(case, corpus, root, what, driver_ok):
+    """greedy one-pass minimisation of a failing case: drop the extra grammars, the user actions file, the
+    environment, then command-line tokens one at a time, keeping a change iff a violation of the same kind persists"""
+    kind = what.split(":")[0].split(" wrote")[0][:24]
+    budget = [30]
+    serial = [0]
+
+    def still_fails(layout, argv, env):
+        if budget[0] <= 0:
+            return False
+        budget[0] -= 1
+        serial[0] += 1
+        grammars = {k: case.grammars[k] for k in layout if k in case.grammars}
+        c = Case(f"s{case.id}x{serial[0]}", layout, case.target, case.is_file, argv, env, grammars, "shrink")
+        v, _, k = run_all(_Quiet("C17", "quick", 0), [c], corpus, root, 4, True, driver_ok)
+        return any(w.startswith(kind) for _, w, _ in v + k)
+
+    layout, argv, env = dict(case.layout), list(case.argv), case.env
+    if case.is_file and "processing the grammars" not in what and "processed after" not in what:
+        small = {k: v for k, v in layout.items() if k.startswith("a/")}
+        if small != layout and still_fails(small, argv, env):
+            layout = small
+    if "a/g1_actions.rs" in layout:
+        small = {k: v for k, v in layout.items() if k != "a/g1_actions.rs"}
+        if still_fails(small, argv, env):
+            layout = small
+    if env != (None, None, False) and still_fails(layout, argv, (None, None, False)):
+        env = (None, None, False)
+    i = 0
+    while i < len(argv):
+        if argv[i] == case.target:
+            i += 1
+            continue
+        cand = argv[:i] + argv[i + 1:]
+        if still_fails(layout, cand, env):
+            argv = cand
+        else:
+            i += 1
+    grammars = {k: case.grammars[k] for k in layout if k in case.grammars}
+    return Case(case.id, layout, case.target, case.is_file, argv, env, grammars, case.family)
+
+
 def build_corpus(rng, n_gen):
     corpus = {}
     for k, t in HAND_GRAMMARS:
@@ -789,7 +850,7 @@ def run(rep, tier, seed):
     n_gen, n_cases, K = (60, 330, 3) if tier == "quick" else (400, 2600, 4)
     corpus = build_corpus(rng, n_gen)
     cases = make_cases(rng, n_cases, corpus)
-    violations, corr_breaks, known_hits = run_all(rep, cases, corpus, root, K, proofs_ok, driver_ok)
+    violations, corr_breaks, known_hits = run_all(rep, cases, corpus, root, K, proofs_ok, driver_ok, shrink_ok=True)
     dflt_bad = check_defaults(rep, root, driver_ok)
     w = check_witness(rep, root, findings)
     if w:
@@ -822,7 +883,10 @@ def run(rep, tier, seed):
                    "Lean compiler/runtime for the executable driver", "harness/cli (vcli), tools/props/c17.py, tools/inventory.py",
                    "clap's argument syntax as transcribed in Cfg.Cli.parse (validated differentially incl. malformed command lines)",
                    "verif hook dump_grammar_only (choice-name inputs)", "128-bit non-cryptographic file hash in vcli"]
-    shutil.rmtree(root, ignore_errors=True)
+    if rep.violations:
+        rep.notes.append(f"work directory kept for inspection (paths in the replay files): {root}")
+    else:
+        shutil.rmtree(root, ignore_errors=True)
 
 
 def replay(rep, path):
